@@ -239,7 +239,7 @@ def _abstract(f0, cids, fmt, string, cand):
                 for kk, aa in spanning.items():
                     c = f.constructs[kk]
                     sp.append([A.cons(c, KIND.get(c.construct_type, 9))[0], KIND.get(c.construct_type, 9), list(aa).index(axis)])
-                reqs.append(["ad", _num(axis), size, unlim, ax.nc_get_dimension("dim"), sp])
+                reqs.append(["ad", _num(axis), size, unlim, ax.nc_get_dimension("dim"), sp, ax.nc_get_dimension(None) is not None])
     for k, c in sorted(f.auxiliary_coordinates(todict=True).items()):
         aa = da[k]
         if c.get_geometry(None) is not None or c.get_data(None) is None:
